@@ -84,8 +84,49 @@ def classify(label):
     return label[:120]
 
 
+# ---- full stack: legal use includes dilate(); the dilation control phases share the mailbox with everything else
+from harness import fullstack as FS  # noqa: E402
+
+FS_CONFIGS = {
+    "fs-dilating-reorder": dict(app=True, reorder=True, max_mdrops=2),
+    "fs-dilating-late-old-peer": dict(app=True, old_peer=True, dilate_when="late"),
+}
+
+
+class FNoFailure(FS.FExplore):
+    configs = FS_CONFIGS
+
+    def final_phase(self, sim):
+        did = False
+        for a in list(sim.enabled()):
+            if a[0] == "stop" and a in sim.enabled():
+                sim.do(a)
+                did = True
+        return did
+
+    def violations(self, sim, when):
+        out = []
+        for s in sim.w.sides:
+            for (what, etype, msg) in s.errors:
+                if etype in ("KeyFormatError", "OnlyOneCodeError", "WormholeClosed", "NoKeyError"):
+                    continue
+                out.append(("exception escaped %s" % what.split(":")[0], etype + ": " + msg))
+            for r in s.close_result:
+                if r[0] == "err" and r[1] not in DOCUMENTED_VERDICTS:
+                    out.append(("close() verdict", r[1]))
+                if r[0] == "ok" and r[1] != "happy":
+                    out.append(("close() verdict", repr(r[1])))
+        for l in sim.w.logged:
+            if l.split(":")[0] not in DOCUMENTED_LOG:
+                out.append(("logged error", l))
+        return out
+
+    def classify(self, label):
+        return classify(label)
+
+
 def jobs(tier):
-    return make_jobs(Explore, tier, 2, 3) + make_random_jobs(Explore, tier)
+    return make_jobs(Explore, tier, 2, 3) + make_random_jobs(Explore, tier) + FS.make_jobs(FNoFailure, tier, 2, 3) + FS.make_random_jobs(FNoFailure, tier, per_cfg=32)
 
 
 ASSUMPTIONS = [
